@@ -77,6 +77,8 @@ def handlers : List (String × (Json → Except String Json)) := [
   ("C01.trace_dia", Qv.Drv.C01.traceDiaJ),
   ("C01.expect_dia", Qv.Drv.C01.expectDiaJ),
   ("C01.expect_csr", Qv.Drv.C01.expectCsrJ),
+  ("C01.inner_csr", Qv.Drv.C01.innerCsrJ),
+  ("C01.inner_op_csr", Qv.Drv.C01.innerOpCsrJ),
   ("C01.expect_super_csr", Qv.Drv.C01.expectSuperCsrJ),
   ("C01.inner_op_dia", Qv.Drv.C01.innerOpDiaJ),
   ("C01.dia_of_dense", Qv.Drv.C01.diaOfDenseJ)
